@@ -85,3 +85,28 @@ def run_check(prop, tier, seed, replay=None):
         return 1 if violations else 0
     finally:
         shutil.rmtree(work, ignore_errors=True)
+
+def grammar_traces(prop, tier, seed, work):
+    """Run a workload of both concurrent families and validate every Send event against ChanDiscipline with Enforce={prop}."""
+    rng = random.Random(seed * 104729 + 13)
+    nsim = 80 if tier == 'quick' else 800
+    bs = C.build_harness('srvfam', work); bc = C.build_harness('clifam', work)
+    srv, cli = [], []
+    for p in ('C01', 'C09'):
+        srv += SF.gen_scenarios(p, 'quick', seed + 23, nsim // 2)
+    for p in ('C04',):
+        cli += CF.gen_scenarios(p, 'quick', seed + 23, nsim)
+    ws = os.path.join(work, 'gs'); wc = os.path.join(work, 'gc'); os.makedirs(ws); os.makedirs(wc)
+    ts, i1 = C.run_scenarios(bs, srv, ws)
+    tc, i2 = C.run_scenarios(bc, cli, wc)
+    if i1['tool_trouble'] or i2['tool_trouble']:
+        raise C.ToolError('; '.join(i1['tool_trouble'] + i2['tool_trouble']))
+    traces = ts + tc
+    accepted, rej = C.validate_traces(traces, 'ChanDiscipline', {prop}, TMPL, work, keep_events=KEEP - {'Crash', 'Deadlock', 'Leak'})
+    viol = []
+    byname = {s['name']: s for s in srv + cli}
+    for r in rej[:3]:
+        name = r['trace'][0]['scn']
+        path = C.save_replay(prop, name, dict(property=prop, family='srv' if name in {s['name'] for s in srv} else 'cli', scenario=byname[name], event=r['event']))
+        viol.append((name, path, r))
+    return dict(violations=viol, traces=len(traces), sends=sum(1 for t in traces for e in t if e['ev'] == 'Send'))
